@@ -84,7 +84,7 @@ class CellsMaker:
             else:
                 self.space.spmgr.set_cells_property(
                     cells=cells,
-                    flags=UserCellsImpl.PROP_FORMULA & UserCellsImpl.PROP_CACHE,
+                    flags=UserCellsImpl.PROP_FORMULA | UserCellsImpl.PROP_CACHE,
                     func=func,
                     enable_cache=self.is_cached)
             return cells.interface
